@@ -382,3 +382,117 @@ func isUvarintSlice(v ssa.Value) bool {
 	f := core.CalleeFunc(cl)
 	return f != nil && core.IsFunc(f, "encoding/binary", "PutUvarint")
 }
+
+// fieldClassifier labels each primitive wire atom with the struct field it
+// carries: for an encoder the field the written value is loaded from, for a
+// decoder the field the read value is stored to. Atoms without a field are
+// epsilon. Nested messages are inlined as in wireClassifier.
+func fieldClassifier(p *core.Program) func(fn *ssa.Function, in ssa.Instruction) atomDecision {
+	base := wireClassifier(p, false)
+	return func(fn *ssa.Function, in ssa.Instruction) atomDecision {
+		d := base(fn, in)
+		if d.kind != akAtom {
+			return d
+		}
+		call, ok := in.(*ssa.Call)
+		if !ok {
+			return atomDecision{kind: akAtom, label: "*"}
+		}
+		f := core.CalleeFunc(call)
+		if f == nil {
+			return atomDecision{kind: akAtom, label: "*"}
+		}
+		recv := core.RecvNamed(f)
+		if recv == nil {
+			return atomDecision{kind: akAtom, label: "*"}
+		}
+		name := ""
+		switch recv.Obj().Name() {
+		case "Buffer":
+			if len(call.Call.Args) >= 2 {
+				name = firstFieldOf(call.Call.Args[1])
+			}
+		case "Reader":
+			name = fieldStoredFrom(fn, call)
+		}
+		if name == "" {
+			name = "*"
+		}
+		return atomDecision{kind: akAtom, label: name}
+	}
+}
+
+// firstFieldOf: the struct field v is computed from (through conversions and arithmetic).
+func firstFieldOf(v ssa.Value) string {
+	name := ""
+	core.DependsOn(v, func(x ssa.Value) bool {
+		switch y := x.(type) {
+		case *ssa.Field:
+			name = fieldNameOnly(y.X.Type(), y.Field)
+			return true
+		case *ssa.UnOp:
+			if y.Op == token.MUL {
+				if fa, ok := y.X.(*ssa.FieldAddr); ok {
+					name = fieldNameOnly(fa.X.Type(), fa.Field)
+					return true
+				}
+			}
+		}
+		return false
+	}, false)
+	return name
+}
+
+// fieldStoredFrom: the struct field of a message that receives (a value derived from) the result of call.
+func fieldStoredFrom(fn *ssa.Function, call *ssa.Call) string {
+	var res []ssa.Value
+	res = append(res, call)
+	for _, r := range *call.Referrers() {
+		if e, ok := r.(*ssa.Extract); ok && e.Index == 0 {
+			res = append(res, e)
+		}
+	}
+	isRes := func(v ssa.Value) bool {
+		for _, r := range res {
+			if v == r {
+				return true
+			}
+		}
+		return false
+	}
+	best := ""
+	var bestPos token.Pos
+	for _, b := range fn.Blocks {
+		for _, in := range b.Instrs {
+			s, ok := in.(*ssa.Store)
+			if !ok {
+				continue
+			}
+			fa, ok := s.Addr.(*ssa.FieldAddr)
+			if !ok {
+				continue
+			}
+			if _, isParam := rootOf(fa.X).(*ssa.Parameter); !isParam {
+				continue
+			}
+			if !core.DependsOn(s.Val, isRes, true) {
+				continue
+			}
+			if best == "" || s.Pos() < bestPos {
+				best, bestPos = fieldNameOnly(fa.X.Type(), fa.Field), s.Pos()
+			}
+		}
+	}
+	return best
+}
+
+func rootOf(v ssa.Value) ssa.Value {
+	for {
+		switch x := v.(type) {
+		case *ssa.FieldAddr:
+			v = x.X
+			continue
+		}
+		return v
+	}
+}
